@@ -629,6 +629,14 @@ func (s *ErrSigningFailure) Error() string {
 	return fmt.Sprintf("signing error: %v", s.Err)
 }
 
+// Unwrap makes the underlying error visible to errors.Is and errors.As.
+func (s *ErrSigningFailure) Unwrap() error {
+	return s.Err
+}
+
+// Unwarp is the historic, misspelled name of Unwrap.
+//
+// Deprecated: use Unwrap (or errors.Is / errors.As).
 func (s *ErrSigningFailure) Unwarp() error {
 	return s.Err
 }
